@@ -62,9 +62,14 @@ def keyIx : List Int := keyIxInit.1
 
 /-- the subscript `ch` that `keyTag`/`keyLongest` apply to `keyIx` for a string whose first byte
     is `b`; `none`: the function returns before the subscript is evaluated.
-    `if (!str || (ch = str[0]) == 0 || keyIx[ch] == KeyNope) return TK_LIMIT;`
-    (SWITCH: after a repair that rejects `ch <= 0` replace the condition by `toSChar b ≤ 0`.) -/
+    `if (!str || (ch = str[0]) <= 0 || keyIx[ch] == KeyNope) return TK_LIMIT;`
+    (`ch` is an int holding a signed `char`; before the repair f6aff20 the test was `== 0`, see
+    `keyLookupIdxOld`.) -/
 def keyLookupIdx (b : Nat) : Option Int :=
+  if toSChar b ≤ 0 then none else some (toSChar b)
+
+/-- the text before f6aff20: `(ch = str[0]) == 0` -/
+def keyLookupIdxOld (b : Nat) : Option Int :=
   if toSChar b = 0 then none else some (toSChar b)
 
 def IdxOK (i : Int) : Prop := 0 ≤ i ∧ i < (keyIxLen : Int)
